@@ -518,6 +518,47 @@ func (rn *runner) watchdog(text string) *time.Timer {
 	})
 }
 
+// runOps runs an op history on the reader `cur` (built for term t: `@path` ops address t's parts) and returns the
+// observations; the family {original, clones…}: a clone is a new member, the others stay usable
+func runOps(t *node, cur any, ops []op) []string {
+	var obs []string
+	fam := []any{cur}
+	curIdx := 0
+	for _, o := range ops {
+		s, panicked := hlib.Catch(func() string {
+			if o.path != nil {
+				tgt := t.at(o.path).obj
+				return runOp(&tgt, o)
+			}
+			k := curIdx
+			if o.on > 0 {
+				k = o.on - 1
+			}
+			if k >= len(fam) {
+				panic("harness: no such family member")
+			}
+			tgt := fam[k]
+			r := runOp(&tgt, o)
+			if o.kind == "cl" && tgt != fam[k] {
+				fam = append(fam, tgt)
+				if o.on == 0 {
+					curIdx = len(fam) - 1
+				}
+			}
+			return r
+		})
+		if panicked {
+			if strings.HasPrefix(s, "panic: harness:") || strings.Contains(s, "interface conversion") {
+				panic(s + " in " + t.term() + " | " + o.String())
+			}
+			obs = append(obs, "panic")
+			break
+		}
+		obs = append(obs, s)
+	}
+	return obs
+}
+
 func (rn *runner) history(t *node, ops []op) {
 	b := &built{tmpDir: rn.tmpDir}
 	var obs []string
@@ -535,49 +576,23 @@ func (rn *runner) history(t *node, ops []op) {
 		if s, p := hlib.Catch(func() string { cur = b.build(t); return "" }); p {
 			panic("harness: cannot build " + t.term() + ": " + s)
 		}
-		// the family {original, clones…}: a clone is a new member, the others stay usable
-		fam := []any{cur}
-		curIdx := 0
-		for _, o := range ops {
-			s, panicked := hlib.Catch(func() string {
-				if o.path != nil {
-					tgt := t.at(o.path).obj
-					return runOp(&tgt, o)
-				}
-				k := curIdx
-				if o.on > 0 {
-					k = o.on - 1
-				}
-				if k >= len(fam) {
-					panic("harness: no such family member")
-				}
-				tgt := fam[k]
-				r := runOp(&tgt, o)
-				if o.kind == "cl" && tgt != fam[k] {
-					fam = append(fam, tgt)
-					if o.on == 0 {
-						curIdx = len(fam) - 1
-					}
-				}
-				return r
-			})
-			if panicked {
-				if strings.HasPrefix(s, "panic: harness:") || strings.Contains(s, "interface conversion") {
-					panic(s + " in " + t.term() + " | " + o.String())
-				}
-				obs = append(obs, "panic")
-				break
-			}
-			obs = append(obs, s)
-		}
+		obs = runOps(t, cur, ops)
 	}()
 	ss := make([]string, len(ops))
 	for i, o := range ops {
 		ss[i] = o.String()
 	}
 	rn.o.Case("h "+t.term()+" | "+strings.Join(ss, " ; "), strings.Join(obs, ";"))
-	// classes: non-trivial = a read that is not byte aligned
-	sh := t.shape()
+	rn.classes(t.shape(), ops)
+	if towerDepth(t) >= 2 {
+		rn.o.Stat("adapter_tower_histories", 1)
+	}
+	rn.o.Stat("ops", len(obs))
+	rn.o.Stat("histories", 1)
+}
+
+// classes: non-trivial = a read that is not byte aligned
+func (rn *runner) classes(sh string, ops []op) {
 	for _, o := range ops {
 		switch o.kind {
 		case "ra", "raf":
@@ -590,8 +605,6 @@ func (rn *runner) history(t *node, ops []op) {
 			}
 		}
 	}
-	rn.o.Stat("ops", len(obs))
-	rn.o.Stat("histories", 1)
 }
 
 // ---------------------------------------------------------------- generators
@@ -1430,6 +1443,10 @@ func (rn *runner) replayLine(l string) {
 			panic(err)
 		}
 		rn.o.Case(l, hlib.Hex(bb.Bytes()))
+	case "bxr":
+		rn.replayRange(l)
+	case "bxc":
+		rn.replayCopy(l)
 	case "h":
 		i := strings.IndexByte(l, '|')
 		t, rest := parseTerm(strings.Fields(l[1:i]))
@@ -1508,6 +1525,14 @@ func main() {
 			o.Sample("h " + t.term() + " | " + ops[0].String() + " ; …")
 		}
 	}
+	nRange, nCopy, nTower := 500, 500, 300
+	if cfg.Thorough() {
+		nRange, nCopy, nTower = 8000, 8000, 4000
+	}
+	rn.bitioxQuirks()
+	rn.rangeCases(r.Fork(), nRange)
+	rn.copyCases(r.Fork(), nCopy)
+	rn.towerCases(r.Fork(), nTower)
 	o.Stat("clone_family_histories", nClone)
 	o.Stat("random_histories", nHist)
 	o.Stat("random_histories_api_level", nBare)
